@@ -112,8 +112,11 @@ def factories(ctx: Ctx):
         ctx.count("matrix factories applying the slice expression")
         # dispatch on the last two dimension types
         uses = [u(n) for n in ast.walk(body) if isinstance(n, ast.Subscript) and u(n.value) == "cube.dimension_types"]
-        dims_alt = "tuple((d.dimension_type for d in dimensions))" in u(body)
-        ok = (bool(uses) and all(x == "cube.dimension_types[-2:]" for x in uses)) or (not uses and dims_alt)
+        from ..exprdiff import alpha
+
+        dims_alt = "tuple((_b0.dimension_type for _b0 in dimensions))" in u(alpha(body))
+        # positive evidence only: some OTHER slice of the cube's dimension types is a violation, neither form is undecided
+        ok = (all(x == "cube.dimension_types[-2:]" for x in uses)) if uses else (True if dims_alt else None)
         ctx.ob("dispatch-dimensions", where, uses or ("slice dimensions" if dims_alt else "none"), "cube.dimension_types[-2:] (or the slice's own two dimensions)", ok, "rows x columns kinds are those of the LAST two dimensions")
     ctx.require_min("matrix factories applying the slice expression", 7)
     sl = ctx.repo.cls("cubepart.py", "_Slice")
@@ -420,7 +423,9 @@ def cubeset(ctx: Ctx):
             continue
         for c in calls:
             held = positive_guard_atoms(m.node, c)
-            for w, (ok, detail) in match_atoms(held, wants).items():
+            with ctx.scope("cube.py", "CubeSet", "_cubes"):
+                matched = match_atoms(held, wants)
+            for w, (ok, detail) in matched.items():
                 ctx.ob("cubeset.guards", where + f" [{w}]", [u(h)[:50] for h in held], w, ok, detail or why)
     e = expand(ctx.repo, cs, "_is_numeric_measure", stop=lambda m: True)
     ctx.check_expr("cubeset.guards", "cube.py::CubeSet._is_numeric_measure", e, "False if not self._is_multi_cube else Cube(self._cube_responses[0]).ndim == 0")
